@@ -161,7 +161,8 @@ def run(ck):
     ck.decided('D1 Phase is canonical by construction: private field, the only literal is in Phase::new and flows into normalize, no field writes',
                'D2 Phase::normalize returns a numerator in (-denom, denom] on every return path (template-constraint abstract interpretation, for all inputs modulo i64 overflow)',
                'D3 the 13 arithmetic operator impls compute with their own operator in (self, rhs) order',
-               'D4 the classification predicates are the reference predicates over the canonical representative')
+               'D4 the classification predicates are the reference predicates over the canonical representative',
+               'D5 limit_denominator returns its argument unchanged when the denominator is within the bound (exact hits)')
     ck.not_decided('limit_denominator continued-fraction optimality', 'float round-trip', 'group laws as value-level equalities (they follow from D1-D3 and Ratio arithmetic, which is trusted)')
     # D1
     for key, ok, site, msg in d1_encap(ck, facts):
@@ -197,6 +198,27 @@ def run(ck):
             for c in got[1]:
                 ck.ob('R-TABLE-pred', key + '/canonical-constant/%s' % c, -1 < c <= 1, ck.site(key),
                       'compares the stored phase with %s, which is outside (-1,1] and can never match a canonical phase' % c)
+    # D5: exact hits of limit_denominator — a fraction whose denominator is within the bound is returned unchanged
+    from .. import paths
+    lk = 'phase::utils::limit_denominator'
+    lf = ck.fn(lk)
+    ps = [p for p in lf['params'] if p.get('k') == 'Bind']
+    hit = False
+    for p2 in paths.return_paths(lf):
+        if p2.kind != 'return' or p2.ret is None or not hir.local(p2.ret) or hir.local(p2.ret)[1] != ps[0]['id']:
+            continue
+        for c in p2.conds:
+            if c[0] != 'cond':
+                continue
+            e, pol = hir.strip(c[1]), c[2]
+            if e.get('k') == 'Binary' and e['op'] in ('Le', 'Ge', 'Lt', 'Gt'):
+                l, r = hir.local_name(e['l']), hir.local_name(e['r'])
+                op = e['op'] if pol else {'Le': 'Gt', 'Gt': 'Le', 'Lt': 'Ge', 'Ge': 'Lt'}[e['op']]
+                # denom <= max_denom  (or max_denom >= denom)
+                if (op == 'Le' and (l, r) == ('denom', ps[1]['name'])) or (op == 'Ge' and (l, r) == (ps[1]['name'], 'denom')):
+                    hit = True
+    dl = [n for n in hir.nodes(lf['hir']) if n.get('k') == 'Let' and n['pat'].get('k') == 'Bind' and n['pat']['name'] == 'denom' and 'denom()' in hir.pp(n['init'])]
+    ck.ob('R-PATH', lk + '/exact-hit', hit and len(dl) == 1, ck.site(lk), 'a fraction whose denominator is <= the bound must be returned unchanged (exact hits, as Python\'s Fraction.limit_denominator); with a strict comparison the bound itself enters the search loop')
     # positive controls
     fx = fixture()
     ck.control('E3-range refutes the `<=` mutant of normalize', any(not p['ok'] for p in d2_normalize(fx, 'phase::Phase::normalize')))
